@@ -281,27 +281,35 @@ def check(ctx):
     # ---- R9: completion ------------------------------------------------------------------------------------------
     fins = g.find(lambda n: method_call(n, '_toc_fetch_finished'))
     ctx.need(len(fins) >= 3, '_new_packet_cb: expected 3 completion sites, found %d' % len(fins))
+    # the branch that adopts the cached table: `self.toc.toc = <cache result>`
+    adopt = [n for n in g.nodes if n.kind == 'stmt' and isinstance(n.ast, ast.Assign) and norm(n.ast.targets[0]) == 'self.toc.toc']
+    ctx.need(len(adopt) == 1, '_new_packet_cb: adoption of the cached table not found')
+    hit_edges = [e for e in g.dominating_edges(adopt[0]) if e.label and e.label[0] == 'cond' and norm(adopt[0].ast.value) in norm(e.label[1])]
+    ctx.need(len(hit_edges) == 1 and hit_edges[0].label[2] is True, '_new_packet_cb: cache-hit test not recognised')
+    hit_edge = hit_edges[0]
+    miss_edge = [e for e in hit_edge.src.succ if e.label and e.label[0] == 'cond' and e.label[2] is False][0]
+
+    def on(edge, n):
+        return ('e', edge.id) in (g.dom().get(('n', n.id)) or ())
     kinds = set()
     for n, x in fins:
         keys = g.fact_keys_at(n)
-        if fact_key('cache_data', True) in keys:
-            kinds.add('cache-hit')
+        if on(hit_edge, n):
             k = 'cache-hit'
-        elif fact_key('self.nbr_of_items > 0', False) in keys and fact_key('cache_data', False) in keys:
-            kinds.add('empty-table')
+        elif fact_key('self.nbr_of_items > 0', False) in keys and on(miss_edge, n):
             k = 'empty-table'
         elif fact_key('self.requested_index < self.nbr_of_items - 1', False) in keys and fact_key('ident != self.requested_index', False) in keys:
-            kinds.add('last-index')
             k = 'last-index'
         else:
             k = 'unexpected@%d' % n.line
             ctx.inst('R9', cb, 'completion:' + k, False, 'download completion signalled under %s' % sorted(keys))
             continue
+        kinds.add(k)
         ctx.inst('R9', cb, 'completion:' + k, True, 'completion on the %s branch' % k)
     ctx.inst('R9', cb, 'completion-branches', kinds == {'cache-hit', 'empty-table', 'last-index'}, 'completion branches found: %s' % sorted(kinds))
     more = [(n, x) for n, x in reqs if fact_key('self.requested_index < self.nbr_of_items - 1', True) in g.fact_keys_at(n)]
     ctx.inst('R9', cb, 'continue-while-more', len(more) == 1, 'the next element is requested while requested_index < nbr_of_items - 1')
-    first = [(n, x) for n, x in reqs if fact_key('self.nbr_of_items > 0', True) in g.fact_keys_at(n) and fact_key('cache_data', False) in g.fact_keys_at(n)]
+    first = [(n, x) for n, x in reqs if fact_key('self.nbr_of_items > 0', True) in g.fact_keys_at(n) and on(miss_edge, n)]
     ctx.inst('R9', cb, 'miss-starts-download', len(first) == 1, 'a cache miss with a non-empty table requests element 0')
     z = [n for n in g.nodes if n.kind == 'stmt' and isinstance(n.ast, ast.Assign) and norm(n.ast.targets[0]) == 'self.requested_index']
     ctx.inst('R9', cb, 'download-starts-at-0', len(z) == 1 and fold_in(cb, z[0].ast.value) == 0, 'download starts at index 0')
